@@ -1568,6 +1568,12 @@ func (s *Netceptor) handleRoutingUpdate(ri *routingUpdate, recvConn string) {
 
 // Handles a ping request.
 func (s *Netceptor) handlePing(md *MessageData) error {
+	if md.FromService == "ping" {
+		// A reply would itself be a ping request: answering it recurses without bound when
+		// the claimed source is this node, and bounces forever between two nodes otherwise.
+		return fmt.Errorf("ignoring ping request that claims to come from a ping service")
+	}
+
 	return s.sendMessage("ping", md.FromNode, md.FromService, []byte{})
 }
 
